@@ -1725,7 +1725,8 @@ def long_date_formats(ctx, res, binary=None, env=None, sanitizer=False):
         res.count('long-date-format')
         vs = judge(c, sanitizer)
         if not vs and obs_class(c) == 'ok':
-            have = c.result[1].decode('latin-1').rstrip('\n')
+            rows = c.result[1].decode('latin-1').rstrip('\n').split('\n')         # one row per posting, the same date on each
+            have = rows[0] if all(r == rows[0] for r in rows) else '\n'.join(rows)
             if have != c.info['want']:
                 vs.append(('date-text-not-strftime:' + c.construct, 'the date printed is not what strftime gives for the format (%d characters expected)' % len(c.info['want']),
                            have[:200], c.info['want'][:200] + ' - or an error'))
